@@ -35,6 +35,7 @@ type Config struct {
 	SolverTimeoutMs int
 	Workers         int
 	Solver          SolverKind
+	CrossCheck      int    // solver queries of worker 0 replayed through z3-new and cvc5 after the run (0 = off)
 	ValidatePaths   int    // completed single-goroutine paths re-run natively per entry (translator validation)
 	Logic           string // SMT-LIB logic announced to the solver (QF_UFBV unless floats are involved)
 }
@@ -157,6 +158,9 @@ func NewWorker(e *Engine, id int) (*Worker, error) {
 		return nil, err
 	}
 	w.sol = s
+	if id == 0 && crossLog != nil {
+		s.cross = true
+	}
 	if id == 0 && os.Getenv("SYMGO_LOG") != "" {
 		solverLogFile, _ = os.Create(os.Getenv("SYMGO_LOG"))
 		s.logAll = true
@@ -172,6 +176,7 @@ func (w *Worker) restartSolver() {
 		panic(err)
 	}
 	s.Queries, s.Time = q, tm
+	s.cross = w.id == 0 && crossLog != nil
 	w.sol = s
 }
 
